@@ -427,6 +427,83 @@ func check(t *testing.T, r *vp.Recorder, c cfg) {
 	r.Violation("ads:"+firstSig+":"+cls, key, fmt.Sprintf("config %s: %s", key, firstMsg), nil)
 }
 
+// checkScopedHookReuse: a per-call block hook (ScopedBlockHook) is an option
+// value, and a caller may well make it once and pass it to every sync: ONE
+// option value handed to a sync, then to a re-sync of the same chain
+// (WithAdsResync), to an entries sync and to the same entries sync again, on
+// one subscriber, unsegmented and in segments of 1 and 2. Every sync reports
+// all its blocks to the hook (the second time round too) and stores them.
+func checkScopedHookReuse(t *testing.T, r *vp.Recorder) {
+	const L, M = 4, 3
+	for _, seg := range []int64{-1, 1, 2} {
+		key := fmt.Sprintf("scoped-hook-reused|seg%d", seg)
+		if !r.Mine(key) {
+			continue
+		}
+		r.Eval(key, true)
+		var bad string
+		syncfx.Bubble(t, func(t *testing.T) {
+			w := syncfx.NewWorld()
+			defer w.Close()
+			id := fixture.Key("ed25519", 0)
+			p := w.AddPub(id, true)
+			ch := syncfx.BuildAdChain(p.Src, id, L, syncfx.DefaultProto, "c01-scoped")
+			ech := syncfx.BuildEntryChain(p.Src, M, syncfx.DefaultProto, "c01-scoped-entries")
+			sub := w.NewSubscriber(dagsync.SegmentDepthLimit(seg))
+			var seen []cid.Cid
+			hookOpt := dagsync.ScopedBlockHook(func(_ peer.ID, c cid.Cid, act dagsync.SegmentSyncActions) {
+				seen = append(seen, c)
+				if data, ok := w.Dst.Get(c); ok {
+					act.SetNextSyncCid(syncfx.LinkOf(data))
+				} else {
+					act.SetNextSyncCid(cid.Undef)
+				}
+			})
+			p.Publisher.SetRoot(ch.Head())
+			steps := []struct {
+				name string
+				run  func() error
+				want int
+			}{
+				{"ad-chain sync", func() error { _, err := sub.SyncAdChain(context.Background(), p.AddrInfo(), hookOpt); return err }, L},
+				{"re-sync of the same chain (WithAdsResync)", func() error {
+					_, err := sub.SyncAdChain(context.Background(), p.AddrInfo(), hookOpt, dagsync.WithAdsResync(true))
+					return err
+				}, L},
+				{"entries sync", func() error { return sub.SyncEntries(context.Background(), p.AddrInfo(), ech.Head(), hookOpt) }, M},
+				{"the same entries sync again", func() error { return sub.SyncEntries(context.Background(), p.AddrInfo(), ech.Head(), hookOpt) }, M},
+			}
+			for _, st := range steps {
+				seen = nil
+				var err error
+				if pn, pm := vp.Guard(func() { err = st.run(); synctest.Wait() }); pn {
+					bad = st.name + ": panic: " + firstLine(pm)
+					return
+				}
+				if err != nil {
+					bad = fmt.Sprintf("%s: %v", st.name, err)
+					return
+				}
+				if len(seen) != st.want {
+					bad = fmt.Sprintf("%s with an option value that earlier syncs were given too: the hook was handed %d blocks, the sync covers %d", st.name, len(seen), st.want)
+					return
+				}
+			}
+			for _, c := range append(append([]cid.Cid{}, ch.Cids...), ech.Cids...) {
+				if !w.Dst.Has(c) {
+					bad = "a block of a successfully synced chain is not in the store"
+					return
+				}
+			}
+		})
+		if bad != "" {
+			r.Violation("scoped-hook-reused:blocks-not-reported", key, bad, nil)
+			continue
+		}
+		r.Outcome("scoped-hook-reuse-ok")
+	}
+}
+
 // checkDirectSyncer: the sync client used directly (ipnisync.NewSync,
 // NewSyncer, Syncer.Sync) with selectors made by the library's exported
 // selector constructors (DagsyncSelector, ExploreRecursiveWithStop,
@@ -583,7 +660,7 @@ func depthValues(L int) []int64 {
 
 func TestCheck(t *testing.T) {
 	r := vp.New("C01", "model_checking",
-		"configurations: chain length L x entry point (queried head h, explicit head h, announce of h, for every h) x latest-sync state (none, every index, via SetLatestSync or WithLastKnownSync) x stop (none, every index, foreign CID) x resync x depth limits (subscriber, first-sync, per-call; each in {unset, -1, 1, L-1, L, L+1}, at most two set at once) x segment size (disabled, 1..L+1, subscriber-wide or per-call) x every subset of pre-stored blocks, factored as A(what) x B(depth) with two 'how' settings, A x C(how) with two depth settings; plus a boundary sweep on chains of 5-6 (quick) / 5-8 (thorough) ads: every segment size 1..L+1 x every depth limit 1..L+1 of each kind x stop {none, oldest, second-oldest} x entry point x {the harness's own hook, the library's MakeGeneralBlockHook} choosing the next segment; entries chains: M x start x {SyncEntries, SyncOneEntry, SyncHAMTEntries} x depth limits x segment size x pre-stored subsets; the all-links entry point also on a DAG with fan-out (2 spine blocks with 2 leaves each) x 5 segment sizes x all 64 pre-stored subsets; histories of real syncs on the subscriber (an older ad synced with an explicit head, the latest-synced value reached by a sync, the publisher's handler removed with RemoveHandler after that) before the observed sync; the sync client used directly (NewSync / NewSyncer / Syncer.Sync) with selectors from DagsyncSelector, ExploreRecursiveWithStop and ExploreRecursiveWithStopNode for every ordered pair of 5 recursion limits with and without a stop link, against a traversal with a selector built by the harness; two entries syncs in a row on one subscriber, the first with a per-call depth limit, the second without or with another one. Every configuration runs the real subscriber and publisher and is compared with an integer reference model. states = distinct base configurations; transitions = hook calls + requests observed; traces = executions.",
+		"configurations: chain length L x entry point (queried head h, explicit head h, announce of h, for every h) x latest-sync state (none, every index, via SetLatestSync or WithLastKnownSync) x stop (none, every index, foreign CID) x resync x depth limits (subscriber, first-sync, per-call; each in {unset, -1, 1, L-1, L, L+1}, at most two set at once) x segment size (disabled, 1..L+1, subscriber-wide or per-call) x every subset of pre-stored blocks, factored as A(what) x B(depth) with two 'how' settings, A x C(how) with two depth settings; plus a boundary sweep on chains of 5-6 (quick) / 5-8 (thorough) ads: every segment size 1..L+1 x every depth limit 1..L+1 of each kind x stop {none, oldest, second-oldest} x entry point x {the harness's own hook, the library's MakeGeneralBlockHook} choosing the next segment; entries chains: M x start x {SyncEntries, SyncOneEntry, SyncHAMTEntries} x depth limits x segment size x pre-stored subsets; the all-links entry point also on a DAG with fan-out (2 spine blocks with 2 leaves each) x 5 segment sizes x all 64 pre-stored subsets; histories of real syncs on the subscriber (an older ad synced with an explicit head, the latest-synced value reached by a sync, the publisher's handler removed with RemoveHandler after that) before the observed sync; the sync client used directly (NewSync / NewSyncer / Syncer.Sync) with selectors from DagsyncSelector, ExploreRecursiveWithStop and ExploreRecursiveWithStopNode for every ordered pair of 5 recursion limits with and without a stop link, against a traversal with a selector built by the harness; one ScopedBlockHook option value handed to a sync, a re-sync, an entries sync and the same entries sync again; two entries syncs in a row on one subscriber, the first with a per-call depth limit, the second without or with another one. Every configuration runs the real subscriber and publisher and is compared with an integer reference model. states = distinct base configurations; transitions = hook calls + requests observed; traces = executions.",
 		"reference model is the oracle (trusted; written from the statement)",
 		"two combinations whose depth limit the documentation leaves open (resync without stop on a known publisher with FirstSyncDepth set; explicit stop on a never-synced publisher with FirstSyncDepth set) are accepted under either reading",
 		"the block hook decodes each block and names its chain link as the next segment's CID, as the segmented-sync API requires",
@@ -705,6 +782,7 @@ func TestCheck(t *testing.T) {
 	checkAllLinksTree(t, r, 2)
 	checkEntriesTwice(t, r, 4)
 	checkDirectSyncer(t, r)
+	checkScopedHookReuse(t, r)
 	t.Logf("violations: %d", r.Violations())
 }
 
